@@ -88,3 +88,389 @@ pub fn cmp_num(ka: u8, a: u64, kb: u8, b: u64) -> Option<Ordering> {
         _ => cmp_uint_float(b, f64::from_bits(a)).map(|o| o.reverse()),
     }
 }
+
+// ---------------------------------------------------------------- Go duration text
+
+/// Single-pass reader and canonicity checker for the Go duration text of `n` nanoseconds
+/// (time.Duration.String): returns true iff `t[..len]` reads back to exactly `n` AND is the
+/// canonical spelling, which the following rules make unique:
+///  * "0s" for zero; a leading '-' iff n < 0;
+///  * |n| < 1s: one term in ns (|n| < 1us, no fraction), us written with the micro sign
+///    (|n| < 1ms) or ms, integer part without leading zero, fraction without trailing zero;
+///  * otherwise [<h>h][<m>m]<s>[.<frac>]s with h present iff hours > 0, m present iff h is
+///    present or minutes > 0, no leading zeros, m and s below 60, fraction of at most nine
+///    digits without trailing zero.
+/// All arithmetic is exact (u64 with overflow reported as a mismatch); the only multiplications
+/// are by constants.
+pub fn is_canonical_go_duration(t: &[u8], len: usize, n: i64) -> bool {
+    if len > t.len() || len < 2 {
+        return false;
+    }
+    let mag = n.unsigned_abs();
+    let mut i = 0usize;
+    if n < 0 {
+        if t[0] != b'-' {
+            return false;
+        }
+        i = 1;
+    }
+    if mag == 0 {
+        return len == 2 && t[0] == b'0' && t[1] == b's';
+    }
+    // state of the number being read
+    let mut int: u64 = 0;
+    let mut nd: u32 = 0; // digits of the integer part
+    let mut lead0 = false; // integer part has more than one digit and starts with 0
+    let mut frac: u64 = 0;
+    let mut fd: u32 = 0; // digits of the fraction
+    let mut in_frac = false;
+    let mut last_frac_digit: u8 = 1;
+    // accumulated value and which units have been seen (0 none, 1 h, 2 m, 3 final)
+    let mut total: u64 = 0;
+    let mut stage: u8 = 0;
+    let mut hours: u64 = 0;
+    let mut k = 0usize;
+    while k < 40 {
+        if i < len {
+            let c = t[i];
+            if stage == 3 {
+                return false; // text after the final unit
+            }
+            if c >= b'0' && c <= b'9' {
+                let d = (c - b'0') as u64;
+                if in_frac {
+                    if fd >= 9 {
+                        return false;
+                    }
+                    frac = frac * 10 + d;
+                    fd += 1;
+                    last_frac_digit = d as u8;
+                } else {
+                    if nd >= 19 {
+                        return false;
+                    }
+                    if nd == 1 && int == 0 {
+                        lead0 = true;
+                    }
+                    int = int * 10 + d;
+                    nd += 1;
+                }
+                i += 1;
+            } else if c == b'.' {
+                if in_frac || nd == 0 {
+                    return false;
+                }
+                in_frac = true;
+                i += 1;
+            } else {
+                // a unit: the number before it must be well formed
+                if nd == 0 || lead0 || (in_frac && (fd == 0 || last_frac_digit == 0)) {
+                    return false;
+                }
+                let c1 = if i + 1 < len { t[i + 1] } else { 0 };
+                let c2 = if i + 2 < len { t[i + 2] } else { 0 };
+                if c == b'h' {
+                    if stage != 0 || in_frac || int == 0 || mag < 1_000_000_000 {
+                        return false;
+                    }
+                    if int > 2_562_047 {
+                        return false;
+                    }
+                    hours = int;
+                    total = int * 3_600_000_000_000;
+                    stage = 1;
+                    i += 1;
+                } else if c == b'm' && c1 != b's' {
+                    if stage > 1 || in_frac || int >= 60 && stage == 1 || mag < 1_000_000_000 {
+                        return false;
+                    }
+                    if stage == 0 && (int == 0 || int >= 60) {
+                        // without hours, minutes are present only when non-zero, and below 60
+                        return false;
+                    }
+                    total += int * 60_000_000_000;
+                    stage = 2;
+                    i += 1;
+                } else {
+                    // final term: s, ms, micro-sign s, ns
+                    let (scale, places, ulen): (u64, u32, usize) = if c == b's' {
+                        (1_000_000_000, 9, 1)
+                    } else if c == b'm' && c1 == b's' {
+                        (1_000_000, 6, 2)
+                    } else if c == 0xC2 && c1 == 0xB5 && c2 == b's' {
+                        (1_000, 3, 3)
+                    } else if c == b'n' && c1 == b's' {
+                        (1, 0, 2)
+                    } else {
+                        return false;
+                    };
+                    if fd > places {
+                        return false;
+                    }
+                    // unit choice is determined by the magnitude
+                    let want_scale: u64 = if mag < 1_000 {
+                        1
+                    } else if mag < 1_000_000 {
+                        1_000
+                    } else if mag < 1_000_000_000 {
+                        1_000_000
+                    } else {
+                        1_000_000_000
+                    };
+                    if scale != want_scale {
+                        return false;
+                    }
+                    if scale == 1_000_000_000 {
+                        // seconds: after h or m they are below 60; alone they are 1..59
+                        if int >= 60 || (stage == 0 && int == 0) {
+                            return false;
+                        }
+                        if stage == 1 {
+                            return false; // "XhYs" without minutes is not canonical
+                        }
+                    } else if stage != 0 || int == 0 || int >= 1_000 {
+                        return false;
+                    }
+                    // pad the fraction to `places` digits
+                    let mut f = frac;
+                    let mut p = fd;
+                    let mut q = 0;
+                    while q < 9 {
+                        if p < places {
+                            f *= 10;
+                            p += 1;
+                        }
+                        q += 1;
+                    }
+                    // f < 10^places == scale, int*scale < 60*10^9: no overflow below
+                    let term = int * scale + f;
+                    total = match total.checked_add(term) {
+                        Some(v) => v,
+                        None => return false,
+                    };
+                    stage = 3;
+                    i += ulen;
+                }
+                int = 0;
+                nd = 0;
+                lead0 = false;
+                frac = 0;
+                fd = 0;
+                in_frac = false;
+                last_frac_digit = 1;
+            }
+        }
+        k += 1;
+    }
+    // hours present => minutes present (stage went 1 -> 2 -> 3), checked above by stage rules
+    let _ = hours;
+    i == len && stage == 3 && total == mag
+}
+
+/// Reference model B: Go's `time.Duration.String` (go/src/time/time.go, fmtFrac/fmtInt), ported
+/// here independently of the repository's port.  Writes backwards into `buf`, returns the start
+/// index.  Validated natively against the reader/canonicity oracle above and the repository's
+/// test vectors (`selftest`); the Kani harnesses prove the implementation byte-equal to it.
+pub fn go_duration_string(n: i64, buf: &mut [u8; 32]) -> usize {
+    fn fmt_frac(buf: &mut [u8; 32], mut w: usize, mut v: u64, prec: u32) -> (usize, u64) {
+        let mut print = false;
+        let mut i = 0;
+        while i < prec {
+            let digit = v % 10;
+            print = print || digit != 0;
+            if print {
+                w -= 1;
+                buf[w] = digit as u8 + b'0';
+            }
+            v /= 10;
+            i += 1;
+        }
+        if print {
+            w -= 1;
+            buf[w] = b'.';
+        }
+        (w, v)
+    }
+    fn fmt_int(buf: &mut [u8; 32], mut w: usize, mut v: u64) -> usize {
+        if v == 0 {
+            w -= 1;
+            buf[w] = b'0';
+        } else {
+            while v > 0 {
+                w -= 1;
+                buf[w] = (v % 10) as u8 + b'0';
+                v /= 10;
+            }
+        }
+        w
+    }
+    let mut u = n.unsigned_abs();
+    let mut w = 32usize;
+    if u < 1_000_000_000 {
+        w -= 1;
+        buf[w] = b's';
+        w -= 1;
+        let prec;
+        if u == 0 {
+            buf[w] = b'0';
+            return w;
+        } else if u < 1_000 {
+            prec = 0;
+            buf[w] = b'n';
+        } else if u < 1_000_000 {
+            prec = 3;
+            buf[w] = 0xB5;
+            w -= 1;
+            buf[w] = 0xC2;
+        } else {
+            prec = 6;
+            buf[w] = b'm';
+        }
+        let (w2, u2) = fmt_frac(buf, w, u, prec);
+        w = fmt_int(buf, w2, u2);
+    } else {
+        w -= 1;
+        buf[w] = b's';
+        let (w2, u2) = fmt_frac(buf, w, u, 9);
+        w = w2;
+        u = u2;
+        w = fmt_int(buf, w, u % 60);
+        u /= 60;
+        if u > 0 {
+            w -= 1;
+            buf[w] = b'm';
+            w = fmt_int(buf, w, u % 60);
+            u /= 60;
+            if u > 0 {
+                w -= 1;
+                buf[w] = b'h';
+                w = fmt_int(buf, w, u);
+            }
+        }
+    }
+    if n < 0 {
+        w -= 1;
+        buf[w] = b'-';
+    }
+    w
+}
+
+/// Exact reader of Go duration syntax (the inverse used by the native self-test): returns the
+/// nanosecond count of a text of the form [-] (digits [. digits] unit)+, or None.
+pub fn read_go_duration(t: &[u8]) -> Option<i128> {
+    let mut i = 0;
+    let neg = t.first() == Some(&b'-');
+    if neg {
+        i = 1;
+    }
+    if &t[i..] == b"0" {
+        return Some(0);
+    }
+    let mut total: i128 = 0;
+    let mut terms = 0;
+    while i < t.len() {
+        let mut int: i128 = 0;
+        let mut nd = 0;
+        while i < t.len() && t[i].is_ascii_digit() {
+            int = int * 10 + (t[i] - b'0') as i128;
+            i += 1;
+            nd += 1;
+        }
+        let (mut fnum, mut fden): (i128, i128) = (0, 1);
+        if i < t.len() && t[i] == b'.' {
+            i += 1;
+            let mut fd = 0;
+            while i < t.len() && t[i].is_ascii_digit() {
+                fnum = fnum * 10 + (t[i] - b'0') as i128;
+                fden *= 10;
+                i += 1;
+                fd += 1;
+            }
+            if fd == 0 {
+                return None;
+            }
+        }
+        if nd == 0 {
+            return None;
+        }
+        let rest = &t[i..];
+        let (scale, ul): (i128, usize) = if rest.starts_with(b"ns") {
+            (1, 2)
+        } else if rest.starts_with(b"us") {
+            (1_000, 2)
+        } else if rest.starts_with(&[0xC2, 0xB5, b's']) {
+            (1_000, 3)
+        } else if rest.starts_with(b"ms") {
+            (1_000_000, 2)
+        } else if rest.starts_with(b"s") {
+            (1_000_000_000, 1)
+        } else if rest.starts_with(b"m") {
+            (60_000_000_000, 1)
+        } else if rest.starts_with(b"h") {
+            (3_600_000_000_000, 1)
+        } else {
+            return None;
+        };
+        i += ul;
+        total += int * scale + (fnum * scale) / fden;
+        terms += 1;
+    }
+    if terms == 0 {
+        return None;
+    }
+    Some(if neg { -total } else { total })
+}
+
+// ---------------------------------------------------------------- proleptic Gregorian calendar
+
+pub struct Civil {
+    pub year: i64,
+    pub month: i64,   // 1..=12
+    pub day: i64,     // 1..=31
+    pub yday0: i64,   // 0-based day of year
+    pub weekday: i64, // 0 = Sunday
+    pub hour: i64,
+    pub minute: i64,
+    pub second: i64,
+}
+pub fn is_leap(y: i64) -> bool {
+    (y % 4 == 0 && y % 100 != 0) || y % 400 == 0
+}
+/// Integer-only conversion of a local second count (seconds since 1970-01-01T00:00:00 in the
+/// timestamp's own offset) to calendar fields: days by floor division, year/month/day by the
+/// 400/100/4-year cycle algorithm (H. Hinnant, "chrono-compatible low-level date algorithms").
+pub fn civil_from_local_seconds(local: i64) -> Civil {
+    let days = local.div_euclid(86_400);
+    let sod = local.rem_euclid(86_400);
+    let z = days + 719_468;
+    let era = z.div_euclid(146_097);
+    let doe = z - era * 146_097; // [0, 146096]
+    let yoe = (doe - doe / 1_460 + doe / 36_524 - doe / 146_096) / 365; // [0, 399]
+    let doy = doe - (365 * yoe + yoe / 4 - yoe / 100); // [0, 365], March 1 based
+    let mp = (5 * doy + 2) / 153; // [0, 11]
+    let day = doy - (153 * mp + 2) / 5 + 1;
+    let month = if mp < 10 { mp + 3 } else { mp - 9 };
+    let year = yoe + era * 400 + if month <= 2 { 1 } else { 0 };
+    const CUM: [i64; 12] = [0, 31, 59, 90, 120, 151, 181, 212, 243, 273, 304, 334];
+    let yday0 = CUM[(month - 1) as usize] + (day - 1) + if month > 2 && is_leap(year) { 1 } else { 0 };
+    Civil {
+        year,
+        month,
+        day,
+        yday0,
+        weekday: (days + 4).rem_euclid(7),
+        hour: sod / 3_600,
+        minute: (sod / 60) % 60,
+        second: sod % 60,
+    }
+}
+/// days since 1970-01-01 of a proleptic Gregorian date (inverse of the above, used to place windows)
+pub const fn days_from_civil(y: i64, m: i64, d: i64) -> i64 {
+    let y = if m <= 2 { y - 1 } else { y };
+    let era = if y >= 0 { y / 400 } else { (y - 399) / 400 };
+    let yoe = y - era * 400;
+    let mp = if m > 2 { m - 3 } else { m + 9 };
+    let doy = (153 * mp + 2) / 5 + d - 1;
+    let doe = yoe * 365 + yoe / 4 - yoe / 100 + doy;
+    era * 146_097 + doe - 719_468
+}
